@@ -36,6 +36,28 @@ Theorem C18_retried_exactly_when_retryable : forall script n idx r k ds,
 Proof. exact retried_exactly_when_retryable. Qed.
 Print Assumptions C18_retried_exactly_when_retryable.
 
+(* whatever delay or backoff the retry policy is configured with besides the Retry-After delay function (WithDelay base,
+   WithBackoff base maxd), for every script, budget and backoff state: the wait scheduled after an attempt is at least
+   the Retry-After that attempt's 429 / 503 response carried, and never negative; the configuration changes neither
+   which attempts are made nor which one is returned; and with no configuration it is the default policy *)
+Theorem C18_retry_after_waited_under_any_delay_configuration : forall base maxd, 0 <= base -> 0 <= maxd ->
+  forall script last n idx r k ds, 0 <= last ->
+  http_retry_b base maxd last script n idx = (r, k, ds) ->
+  forall j d, nth_error ds j = Some d ->
+  exists a, nth_error script j = Some a /\ retry_after_floor a <= d /\ 0 <= d.
+Proof. exact retry_after_waited. Qed.
+Print Assumptions C18_retry_after_waited_under_any_delay_configuration.
+
+Theorem C18_delay_configuration_does_not_change_attempts : forall base maxd script last n idx,
+  fst (http_retry_b base maxd last script n idx) = fst (http_retry script n idx).
+Proof. exact http_retry_b_same_attempts. Qed.
+Print Assumptions C18_delay_configuration_does_not_change_attempts.
+
+Theorem C18_no_delay_configuration_is_default_policy : forall script last n idx,
+  http_retry_b 0 0 last script n idx = http_retry script n idx.
+Proof. exact http_retry_b_default. Qed.
+Print Assumptions C18_no_delay_configuration_is_default_policy.
+
 (* every attempt of a sequential retry sequence carries the same body, which is the complete original body when the
    caller hands over an unread body *)
 Theorem C18_every_attempt_same_body : forall b n x, In x (bodies_of_attempts b n) -> x = attempt_body b.
